@@ -145,12 +145,12 @@ def _is_int(j):
     return isinstance(j, int) and not isinstance(j, bool)
 
 
-def spec_usable(dt, j):
+def spec_usable(dt, j, strict=True):
     """strict reading of a stored JSON entry: ('ok', internal cv) when j is a valid transport value of the datatype,
-    else None (unusable)"""
+    else None (unusable); strict=False: do not look at the limits of int and the length of blob leaves"""
     k = dt[0]
     if k == 'int':
-        return ('ok', j) if _is_int(j) and dt[1] <= j <= dt[2] else None
+        return ('ok', j) if _is_int(j) and (not strict or dt[1] <= j <= dt[2]) else None
     if k == 'bool':
         return ('ok', j) if isinstance(j, bool) else None
     if k == 'enum':
@@ -178,22 +178,22 @@ def spec_usable(dt, j):
             b = base64.b64decode(j, validate=True)
         except Exception:
             return None
-        return ('ok', {'b': list(b)}) if dt[1] <= len(b) <= dt[2] else None
+        return ('ok', {'b': list(b)}) if not strict or dt[1] <= len(b) <= dt[2] else None
     if k == 'array':
         if not isinstance(j, list) or not dt[2] <= len(j) <= dt[3]:
             return None
-        r = [spec_usable(dt[1], x) for x in j]
+        r = [spec_usable(dt[1], x, strict) for x in j]
         return None if any(x is None for x in r) else ('ok', [x[1] for x in r])
     if k == 'tuple':
         if not isinstance(j, list) or len(j) != len(dt[1]):
             return None
-        r = [spec_usable(d, x) for d, x in zip(dt[1], j)]
+        r = [spec_usable(d, x, strict) for d, x in zip(dt[1], j)]
         return None if any(x is None for x in r) else ('ok', [x[1] for x in r])
     if k == 'struct':
         if not (isinstance(j, dict) and 's' in j) or set(j['s']) != set(n for n, _ in dt[1]):
             return None
         md = dict((n, d) for n, d in dt[1])
-        r = {n: spec_usable(md[n], x) for n, x in j['s'].items()}
+        r = {n: spec_usable(md[n], x, strict) for n, x in j['s'].items()}
         return None if any(x is None for x in r.values()) else ('ok', {'s': {n: x[1] for n, x in r.items()}})
     raise ValueError(dt)
 
@@ -735,7 +735,7 @@ class Tables:
 def enc_dt(dt, T):
     k = dt[0]
     if k == 'int':
-        return 'DInt'
+        return f'(DInt {gal.z(dt[1])} {gal.z(dt[2])})'
     if k == 'bool':
         return 'DBool'
     if k == 'enum':
@@ -773,9 +773,31 @@ class Keys:
         return self.other[name]
 
 
+class Intern:
+    """share repeated sub-terms of a case through let-bindings (parsing dominates the cost of a shard)"""
+    def __init__(self):
+        self.names = {}
+        self.order = []
+
+    def __call__(self, term):
+        if len(term) < 16:
+            return term
+        if term not in self.names:
+            self.names[term] = f'x{len(self.order)}'
+            self.order.append(term)
+        return self.names[term]
+
+    def wrap(self, body):
+        return ''.join(f'let {self.names[t]} := {t} in\n ' for t in self.order) + body
+
+
+_intern = None
+
+
 def enc_amap(d, K):
     items = d.items() if isinstance(d, dict) else d
-    return '[%s]' % '; '.join(f'({gal.nat(K(k))}, {enc_val(v)})' for k, v in items)
+    t = '[%s]' % '; '.join(f'({gal.nat(K(k))}, {_intern(enc_val(v)) if _intern else enc_val(v)})' for k, v in items)
+    return _intern(t) if _intern else t
 
 
 FOPS = {'open': 'FOpen', 'close': 'FClose', 'rename': 'FRename', 'remove': 'FRemove'}
@@ -817,6 +839,16 @@ def enc_res(st):
 
 
 def encode(case, obs):
+    global _intern
+    _intern = Intern()
+    try:
+        return _intern.wrap('(' + _encode(case, obs) + ')')
+    finally:
+        _intern = None
+
+
+def _encode(case, obs):
+    I = _intern
     T = Tables(case, obs)
     params = case['params']
     K = Keys(len(params))
@@ -850,7 +882,7 @@ def encode(case, obs):
                 enc_amap(m['vals'], K), enc_amap(m['wd'], K),
                 'None' if m['pd'] == 'nondict' else f'(Some {enc_amap(m["pd"], K)})', enc_amap(m['init'], K))
         obl.append('{| o_res := %s; o_target := %s; o_tmp := %s; o_mod := %s |}' % (
-            enc_res(st), enc_content(st['target'], K), enc_content(st['tmp'], K), ms))
+            enc_res(st), I(enc_content(st['target'], K)), I(enc_content(st['tmp'], K)), I(ms)))
     return '{| c_M := [%s]; c_ops := [%s]; c_obs := [%s] |}' % ('; '.join(M), ';\n '.join(ops), ';\n '.join(obl))
 
 
@@ -863,13 +895,12 @@ def _pers_names(case):
     return [f'p{i}' for i, p in enumerate(case['params']) if p['pers'] in ('on', 'auto')]
 
 
-def _doc_of(text):
-    """parsed complete document or None"""
+def _doc_of(raw):
+    """parsed complete document (bytes or str) or None when it is not readable as UTF-8 JSON"""
     try:
-        v = json.loads(text)
+        return json.loads(raw.decode('utf-8') if isinstance(raw, bytes) else raw)
     except ValueError:
         return None
-    return v
 
 
 def _expected_snapshot(case, vals):
@@ -911,20 +942,22 @@ def oracle(case, obs):
             fail('atomic', f'op {idx}: unexpected files {st["other"]}')
         # (1) crash / error atomicity: the stored file is the previous one or a complete new snapshot
         if after != before:
-            doc = None if after is None else _doc_of(after.decode('utf-8', errors='replace'))
+            doc = None if after is None else _doc_of(after)
             if after is None:
                 fail('atomic', f'op {idx} ({kind}, fault {fault}): the stored file vanished')
             elif not isinstance(doc, dict) or sorted(doc) != sorted(pers) or not after.endswith(b'\n'):
                 fail('atomic', f'op {idx} ({kind}, fault {fault}): stored file is neither the previous nor a complete '
                                f'new snapshot: {after[:60]!r}')
-            elif st['mod'] is not None:
+            elif st['mod'] is not None and kind in ('init', 'set', 'save'):
+                # (in these operations no value changes after the save, so the new snapshot is that of the final values)
                 exp = _expected_snapshot(case, st['mod']['vals'])
                 if exp is not None and doc != exp:
                     fail('roundtrip', f'op {idx} ({kind}): stored snapshot {doc} is not the transport form {exp} of the '
                                       'current values')
         wrote = after != before
         if wrote and st['mod'] is not None:
-            cur_saved_vals = dict(st['mod']['vals'])
+            # (after writeinit/load/reset values may still change after the save of the same operation)
+            cur_saved_vals = dict(st['mod']['vals']) if kind in ('init', 'set', 'save') else None
             failed_save = None
         elif wrote:
             cur_saved_vals = None
@@ -941,7 +974,7 @@ def oracle(case, obs):
                 attempt = True
         if attempt:
             exp = _expected_snapshot(case, st['mod']['vals'])
-            doc = None if after is None else _doc_of(after.decode('utf-8', errors='replace'))
+            doc = None if after is None else _doc_of(after)
             if exp is not None and doc != exp:
                 if failed_save is not None:
                     fail('failed-save-not-retried',
@@ -963,7 +996,7 @@ def oracle(case, obs):
         # (4) values after start-up: cfg > file > default, usable entries restored, others ignored
         if kind == 'init' and st['mod'] is not None:
             cfg = op[1]
-            doc = None if before is None else _doc_of(before.decode('utf-8', errors='replace'))
+            doc = None if before is None else _doc_of(before)
             entries = {k: from_py(v) for k, v in doc.items()} if isinstance(doc, dict) else {}
             for i, p in enumerate(params):
                 n = names[i]
@@ -982,7 +1015,12 @@ def oracle(case, obs):
                         if not cv_eq(got, u[1]):
                             fail('roundtrip', f'op {idx}: stored {n}={entries[n]} restored as {got}')
                     elif not (cv_eq(got, p['default']) or spec_valid(p['dt'], got)):
-                        fail('tolerant-load', f'op {idx}: unusable entry {n}={entries[n]} left the invalid value {got}')
+                        w = spec_usable(p['dt'], entries[n], strict=False)
+                        if w is not None and cv_eq(got, w[1]):
+                            fail('invalid-entry-loaded', f'op {idx}: stored {n}={entries[n]} is outside the limits of '
+                                 f'{p["dt"]} but was not ignored: the parameter is {got}')
+                        else:
+                            fail('tolerant-load', f'op {idx}: unusable entry {n}={entries[n]} left the invalid value {got}')
                 elif not cv_eq(got, p['default']):
                     fail('tolerant-load', f'op {idx}: {n} has no stored entry but is {got}, default {p["default"]}')
                 if cur_saved_vals is not None and before is not None and n in cur_saved_vals and \
@@ -1032,7 +1070,12 @@ def _f_shape(case, obs, failure):
     return False
 
 
+def _f_range(case, obs, failure):
+    return failure['class'] == 'invalid-entry-loaded'
+
+
 FINDING_CLASSIFIERS = {
+    'out_of_range_entry_loaded': _f_range,
     'failed_save_considered_done': _f_retry,
     'nonobject_document_prevents_startup': _f_nonobject,
     'outdated_shape_prevents_startup': _f_shape,
@@ -1158,7 +1201,7 @@ def gen_params(rng):
 
 
 WRONG_KINDS = [None, True, 3, 'ab', 'a', [], [1, 2], {'s': {}}, {'s': {'x': 1}}, {'f': (2.5).hex()}, {'f': (1.0).hex()},
-               'YWJj', [[1]], 0, '']
+               'YQ==', [[1]], 0, '']
 
 
 def outdate(dt, rng):
@@ -1177,7 +1220,36 @@ def outdate(dt, rng):
         else:
             v['old'] = 1
         return {'s': v}
-    return rng.choice(WRONG_KINDS)
+    return pick_wrong(dt, rng)
+
+
+def pick_wrong(dt, rng, allow_range=False):
+    if allow_range and dt[0] == 'int' and rng.random() < 0.4:
+        return rng.choice([dt[2] + 40, dt[1] - 1])
+    if allow_range and dt[0] == 'blob' and rng.random() < 0.4:
+        return base64.b64encode(bytes(range(65, 65 + dt[2] + 2))).decode('ascii')
+    w = rng.choice(WRONG_KINDS)
+    if isinstance(w, dict) and 'f' in w and float.fromhex(w['f']) != int(float.fromhex(w['f'])) \
+            and has_kind(dt, 'scaled'):
+        return 3        # int(2.5) truncates: the table of scale*n is indexed by integers only
+    if not allow_range and dt[0] == 'blob' and isinstance(w, str) and spec_usable(dt, w, strict=False) is not None \
+            and spec_usable(dt, w) is None:
+        return 'ab'     # decodable but of a wrong length: only in range_cases
+    return w
+
+
+def range_cases(params, rng):
+    """stored values outside the limits of the (changed) parameter definition; no writeInitParams afterwards
+    (the write wrappers validate against the limits, which the model does not contain)"""
+    for i, p in enumerate(params):
+        if p['pers'] not in ('on', 'auto') or p['dt'][0] not in ('int', 'blob'):
+            continue
+        good = {f'p{j}': spec_export(q['dt'], q['default']) for j, q in enumerate(params) if q['pers'] in ('on', 'auto')}
+        for _ in range(4):
+            doc = dict(good)
+            doc[f'p{i}'] = pick_wrong(p['dt'], rng, True)
+            yield {'params': params, 'ops': [['corrupt', {'doc': {'s': doc}}], ['init', {}, None], ['save', None],
+                                             ['init', gen_cfg(params, rng, 0.3), None]]}
 
 
 def gen_doc(params, rng, mode=None):
@@ -1191,10 +1263,7 @@ def gen_doc(params, rng, mode=None):
         if r < 0.6 or mode == 'good':
             doc[n] = spec_export(p['dt'], gen_value(p['dt'], rng))
         elif r < 0.85:
-            w = rng.choice(WRONG_KINDS)
-            if isinstance(w, dict) and 'f' in w and float.fromhex(w['f']) != int(float.fromhex(w['f'])) \
-                    and has_kind(p['dt'], 'scaled'):
-                w = 3
+            w = pick_wrong(p['dt'], rng)
             doc[n] = w
         else:
             doc[n] = outdate(p['dt'], rng)
@@ -1286,6 +1355,8 @@ FIXED = [
     [{'dt': ['array', ['str', 0, 3, True], 1, 3], 'pers': 'auto', 'w': 'none', 'default': ['a', 'é']},
      {'dt': ['blob', 0, 4], 'pers': 'on', 'w': 'none', 'default': {'b': [1, 2, 255]}},
      {'dt': ['float'], 'pers': 'auto', 'w': 'none', 'default': {'f': (0.1).hex()}}],
+    [{'dt': ['int', 0, 10], 'pers': 'auto', 'w': 'none', 'default': 1},
+     {'dt': ['blob', 1, 2], 'pers': 'on', 'w': 'flag', 'default': {'b': [7]}}],
 ]
 
 
@@ -1301,16 +1372,24 @@ def fault_sweep(params, rng):
     """every fault kind at every file-system operation of a save: in a running module, and during start-up"""
     n, _ = _chunks_estimate(params)
     auto = [i for i, p in enumerate(params) if p['pers'] == 'auto']
+    pers = [i for i, p in enumerate(params) if p['pers'] in ('on', 'auto')]
     positions = [{'op': 'open'}] + [{'op': 'write', 'i': i} for i in range(n + 1)] + \
         [{'op': 'close'}, {'op': 'rename'}, {'op': 'remove'}]
     for pos in positions:
         for kind in ('cb', 'ca', 'err'):
             f = dict(pos, kind=kind)
-            i = auto[0]
-            v = gen_value(params[i]['dt'], rng)
-            yield {'params': params, 'ops': [
-                ['init', {}, None], ['writeinit', None], ['set', f'p{i}', v, f], ['save', None],
-                ['init', {}, None], ['save', None]]}
+            if auto:
+                i = auto[0]
+                v = gen_value(params[i]['dt'], rng)
+                yield {'params': params, 'ops': [
+                    ['init', {}, None], ['writeinit', None], ['set', f'p{i}', v, f], ['save', None],
+                    ['init', {}, None], ['save', None]]}
+            else:
+                i = pers[0]
+                v = gen_value(params[i]['dt'], rng)
+                yield {'params': params, 'ops': [
+                    ['init', {}, None], ['writeinit', None], ['set', f'p{i}', v, None], ['save', f], ['save', None],
+                    ['init', {}, None], ['save', None]]}
             yield {'params': params, 'ops': [['init', gen_cfg(params, rng, 0.5), f], ['init', {}, None], ['save', None]]}
 
 
@@ -1352,6 +1431,8 @@ def gen_cases(seed, tier):
         cases.extend(fault_sweep(params, rng))
     for k, params in enumerate(FIXED):
         cases.extend(corruption_sweep(params, rng, flips=(tier != 'quick' or k == 0)))
+    for params in pool if tier != 'quick' else pool[:24]:
+        cases.extend(range_cases(params, rng))
     if tier != 'quick':
         for params in pool[3:43]:
             cases.extend(fault_sweep(params, rng))
